@@ -72,7 +72,7 @@ let run () = iter_lines (fun line ->
       end;
       (* d. same commands after re-parsing; e. idempotence *)
       let first_gt = (not cmds_same) in
-      if not cmds_same then report "SPEC:C10" "known:first-line-looks-like-continuation the updated document parses to different commands (a changed output whose first line starts with `> `)" line;
+      if not cmds_same then report "SPEC:C10" "known:first-line-looks-like-continuation the updated document parses to different commands (a kept expectation line that starts with `> ` became the first line after the shell expression)" line;
       if is_hex u2 || u2 = "-" then begin
         if u2 <> u1 && not first_gt then report "SPEC:C10" "updating the updated document with the same outputs changes it again" line
       end else if not first_gt then report "SPEC:C10" ("second update: " ^ u2) line
